@@ -3,6 +3,8 @@ package props
 
 import (
 	_ "verif/harness/props/c01"
+	_ "verif/harness/props/c02"
+	_ "verif/harness/props/c03"
 	_ "verif/harness/props/c04"
 	_ "verif/harness/props/c05"
 	_ "verif/harness/props/c06"
